@@ -88,7 +88,7 @@ func vFamilyCurated() []string {
 		"X [X] [X]", "[X] [X] X", "[X]... X", "X... X", "[-a]... -a", "-a... -a", "[-a | -b]... X", "(-a | X)... Y",
 		"[-o]... [X]...", "-o X -o Y", "(-o | X)...",
 		"-a... [-b]", "-a... -b", "-b -a...", "(-a | -b)... X", "[-o] [-e]", "-o -e", "[-a] [-o]", "[-a] [-o] [X]", "[-b] [-o] [-e]...",
-		"[--aa] [--oo] [--ee]", "-a [-b]... [-o]",
+		"[--aa] [--oo] [--ee]", "-a [-b]... [-o]", "[-ab] [-o] X", "[-ab] [-e] [X]", "-ab -o", "[-abo] [-e] X",
 	}
 }
 
@@ -97,6 +97,7 @@ func vFamilyEnd() []string {
 	return []string{
 		"-- X", "-a -- X", "[-a] -- X...", "-a [-- X]", "(-- X)...", "X -- Y...", "-ab -- X", "[-o] X -- [Y]",
 		"[OPTIONS] -- X...", "X --", "-- X Y", "[-a] [-- ] X", "-o -- X...", "[-- X]", "(-a | -- ) X",
+		"(X -- Y...) | (-- X)", "(-a -- X) | (-- Y)", "-- X | -- Y", "(-a -- | -- ) X",
 	}
 }
 
@@ -120,6 +121,7 @@ func vFamilyEnv() []string {
 		"-e...", "[-e]...", "[-e...] X", "[-e]... X", "-e... X", "(-e | -a)...", "(-e | -a)... X", "-ae", "[OPTIONS]", "[OPTIONS] X",
 		"-e X", "[-e] X", "-e -a", "[-e | -a] X", "-e... -a", "(-e X)...", "[-ae] X", "-a... X", "(-a -e)...", "-e -e",
 		"[-e [-a]]...", "X [-e]...", "([-e] X)...", "-o... -e...", "[-e...]... X",
+		"(-a | -e)... X", "(-a | -e)...", "[OPTIONS] X [OPTIONS]", "[-ae] X [-ae]", "[-a | -e]... X", "(-o | -e)... X",
 	}
 }
 
